@@ -29,6 +29,36 @@ pub const KINDS7: [ColorKind; 7] = [
     ColorKind::C32,
 ];
 
+/// C09's own menu: the seven raw widths and, appended, the user colour with a partial `From<Raw>`.
+pub const KINDS8: [ColorKind; 8] = [
+    ColorKind::Binary,
+    ColorKind::Gray2,
+    ColorKind::Gray4,
+    ColorKind::Gray8,
+    ColorKind::Rgb565,
+    ColorKind::Rgb888,
+    ColorKind::C32,
+    ColorKind::User2,
+];
+
+/// For the user colour: every pixel INSIDE the image box must hold a raw value that is a colour
+/// (0..=2); whatever lies in the row padding stays as generated (and often is the forbidden 3).
+fn make_in_box_pixels_valid(data: &mut [u8], w: u32, h: u32, be: bool) {
+    let bpr = bytes_per_row(w, 2);
+    for y in 0..h as usize {
+        for x in 0..w as usize {
+            let idx = y * bpr + x / 4;
+            if idx >= data.len() {
+                return;
+            }
+            let shift = if be { 2 * (x % 4) } else { 6 - 2 * (x % 4) };
+            if (data[idx] >> shift) & 3 == 3 {
+                data[idx] &= !(1u8 << shift);
+            }
+        }
+    }
+}
+
 #[derive(Clone, Debug, Hash)]
 pub struct Scenario {
     pub kind: ColorKind,
@@ -222,7 +252,7 @@ fn run_typed<C: SimColor>(sc: &Scenario, opts: &Opts) -> RunOut {
     trace.u64(out.scen_hash);
     let i = &sc.img;
     let bits = sc.kind.bits();
-    let kind_idx = KINDS7.iter().position(|k| *k == sc.kind).unwrap() as u32;
+    let kind_idx = KINDS8.iter().position(|k| *k == sc.kind).unwrap() as u32;
     out.lattice = (kind_idx * 2 + i.be as u32) * 8 * crate::dev::N_DISC + sc.dev.lattice();
     out.faults_configured[2] += 1;
     out.faults_fired[2] += 1;
@@ -570,10 +600,10 @@ impl Property for C09 {
         )]
     }
     fn lattice_size(&self) -> u32 {
-        14 * 8 * crate::dev::N_DISC
+        16 * 8 * crate::dev::N_DISC
     }
     fn lattice_desc(&self) -> &'static str {
-        "raw width (7) x data order (2) x capability set (8) x consumption discipline (5)"
+        "colour kind (7 raw widths + a user colour with a partial From<Raw>) x data order (2) x capability set (8) x consumption discipline (5)"
     }
     fn sub_eval_name(&self) -> &'static str {
         "operations_checked"
@@ -591,14 +621,18 @@ impl Property for C09 {
     }
 
     fn gen(&self, src: &mut Src) -> Scenario {
-        let kind = KINDS7[src.draw(7) as usize];
+        let kind = KINDS8[src.draw(8) as usize];
         let knobs = {
             let mut k = gen_knobs(src, kind.mask(), false);
             k.scale = [8, 24][src.draw(2) as usize];
             k
         };
         let with_subs = src.draw(3) != 0;
-        let img = gen_image(src, &knobs, kind.bits(), with_subs);
+        let mut img = gen_image(src, &knobs, kind.bits(), with_subs);
+        if kind == ColorKind::User2 {
+            let (w, h, be) = (img.w, img.h, img.be);
+            make_in_box_pixels_valid(&mut img.data, w, h, be);
+        }
         let stride = bytes_per_row(img.w, kind.bits()) as i32;
         let len_delta = match src.draw(6) {
             0 | 1 => 0,
@@ -655,6 +689,7 @@ impl Property for C09 {
             ColorKind::Rgb565 => run_typed::<Rgb565>(sc, opts),
             ColorKind::Rgb888 => run_typed::<Rgb888>(sc, opts),
             ColorKind::C32 => run_typed::<C32>(sc, opts),
+            ColorKind::User2 => run_typed::<crate::dev::Cu2>(sc, opts),
             k => unreachable!("{} is only used by C20", k.name()),
         }
     }
